@@ -130,6 +130,10 @@ pub fn gen_config(profile: &str, rng: &mut Rng, tier: Tier) -> Config {
 	w(&mut weights, "Mine", 0);
 	w(&mut weights, "Sync", 0);
 	w(&mut weights, "Reorg", 0);
+	w(&mut weights, "Resend", 0);
+	if matches!(profile, "forward" | "payments" | "offchain" | "crash") {
+		w(&mut weights, "Resend", *r.pick(&[0, 1, 2]));
+	}
 	match profile {
 		"offchain" => {
 			w(&mut weights, "CloseCoop", if r.chance(1, 3) { 1 } else { 0 });
@@ -487,6 +491,15 @@ pub fn next_action(wd: &World, rng: &mut Rng) -> Option<Action> {
 	if !nonempty.is_empty() {
 		kinds.push(("Deliver", weight(cfg, "Deliver")));
 	}
+	let resendable: Vec<usize> = wd
+		.pays
+		.iter()
+		.filter(|p| p.accepted && wd.nodes[p.from].live.is_some())
+		.map(|p| p.idx)
+		.collect();
+	if !resendable.is_empty() {
+		kinds.push(("Resend", weight(cfg, "Resend")));
+	}
 	let tamperable: Vec<(usize, usize, bool)> = wd
 		.queues
 		.iter()
@@ -668,6 +681,7 @@ pub fn next_action(wd: &World, rng: &mut Rng) -> Option<Action> {
 			}
 		},
 		"Send" => return gen_send(wd, rng),
+		"Resend" => Action::Resend { pay: *rng.pick(&resendable) },
 		"Deliver" => {
 			let (f, t) = *rng.pick(&nonempty);
 			Action::Deliver { from: f, to: t }
